@@ -21,7 +21,7 @@ variable {K : Type} [Field K] [LinearOrder K] [FloorRing K]
 
 /-- `np.linspace(k0, k1, n+2)[1:-1]`:  `k0 + j·(k1-k0)/(n+1)`, `j = 1..n`. -/
 def linspaceInterior (k0 k1 : K) (n : ℕ) : List K :=
-  (List.range n).map (fun j => k0 + ((j : K) + 1) * ((k1 - k0) / ((n : K) + 1)))
+  (List.range n).map (fun (j : ℕ) => k0 + ((j : K) + 1) * ((k1 - k0) / ((n : K) + 1)))
 
 /-- The list `refine` builds for one direction: `n` interior points for every pair of consecutive
     entries of `knot_spans()`. -/
